@@ -1,7 +1,7 @@
 use poulpy_hal::{
     api::{
         ModuleN, ScratchAvailable, ScratchTakeBasic, SvpApplyDftToDftAssign, VecZnxBigAddAssign, VecZnxBigAddSmallAssign,
-        VecZnxBigBytesOf, VecZnxBigNormalize, VecZnxDftApply, VecZnxDftBytesOf, VecZnxIdftApplyConsume, VecZnxNormalizeTmpBytes,
+        VecZnxBigBytesOf, VecZnxBigNormalize, VecZnxDftApply, VecZnxDftBytesOf, VecZnxBigNormalizeTmpBytes, VecZnxIdftApplyConsume,
     },
     layouts::{Backend, DataViewMut, Module, Scratch},
 };
@@ -15,7 +15,7 @@ pub(crate) trait GLWEDecryptDefault<BE: Backend>:
     Sized
     + ModuleN
     + VecZnxDftBytesOf
-    + VecZnxNormalizeTmpBytes
+    + VecZnxBigNormalizeTmpBytes
     + VecZnxBigBytesOf
     + VecZnxDftApply<BE>
     + SvpApplyDftToDftAssign<BE>
@@ -34,7 +34,7 @@ where
         assert_eq!(self.n() as u32, infos.n());
 
         let lvl_0: usize = self.bytes_of_vec_znx_big(1, size);
-        let lvl_1: usize = self.bytes_of_vec_znx_dft(1, size).max(self.vec_znx_normalize_tmp_bytes());
+        let lvl_1: usize = self.bytes_of_vec_znx_dft(1, size).max(self.vec_znx_big_normalize_tmp_bytes());
 
         lvl_0 + lvl_1
     }
@@ -100,7 +100,7 @@ impl<BE: Backend> GLWEDecryptDefault<BE> for Module<BE>
 where
     Self: ModuleN
         + VecZnxDftBytesOf
-        + VecZnxNormalizeTmpBytes
+        + VecZnxBigNormalizeTmpBytes
         + VecZnxBigBytesOf
         + VecZnxDftApply<BE>
         + SvpApplyDftToDftAssign<BE>
